@@ -627,13 +627,33 @@ class LoadExec(Exec):
                     size = fmt.size
                 else:
                     size = z3.IntVal({"<Q": 8, "<L": 4, "<H": 2, "<B": 1}[fmt.val])
-                # contract of struct.unpack_from (probed): struct.error unless offset + size <= len(buffer)
+                if len(c.args) == 3 and "offset" not in kw:
+                    off = self.ev(c.args[2], env, pc)
+                # contract of struct.unpack_from (probed): struct.error unless 0 <= offset and offset + size <= len(buffer)
+                if isinstance(buf, Bytes) and buf.off is not None:
+                    # bytes read earlier from the file: the buffer is the file segment [buf.off, buf.off + buf.n)
+                    self.outcomes.append(("raise struct.error(unpack_from)", pc + [z3.Or(off.v < 0, off.v + size > buf.n)]))
+                    pc.append(z3.And(off.v >= 0, off.v + size <= buf.n))
+                    return Py(self.lookup(buf.off + off.v, size, pc, ast.unparse(e)[:60]))
                 self.outcomes.append(("raise struct.error(unpack_from)", pc + [off.v + size > buf.length]))
                 pc.append(off.v + size <= buf.length)
                 return Py(self.lookup(off.v, size, pc, ast.unparse(e)[:60]))
             o = self.ev(e.value, env, pc)
             if isinstance(o, Seq) and o.kind == "coords" and isinstance(e.slice, ast.Constant) and e.slice.value == 0:
                 return Tok("key", i=z3.IntVal(0))
+            if isinstance(o, Bytes) and o.off is not None and isinstance(e.slice, ast.Slice) and e.slice.step is None:
+                # slice of bytes read from the file (Python semantics for non-negative constant bounds: clamped to the length)
+                def bound(x, default):
+                    if x is None:
+                        return default
+                    v = self.ev(x, env, pc)
+                    if not isinstance(v, Py) or not z3.is_int_value(z3.simplify(v.v)) or z3.simplify(v.v).as_long() < 0:
+                        raise Unsupported("bytes slice bound %s" % ast.unparse(x))
+                    return v.v
+                lo, hi = bound(e.slice.lower, z3.IntVal(0)), bound(e.slice.upper, o.n)
+                lo_ = z3.If(lo < o.n, lo, o.n)
+                hi_ = z3.If(hi < o.n, hi, o.n)
+                return Bytes(z3.If(hi_ > lo_, hi_ - lo_, 0), "read", off=o.off + lo_)
             if isinstance(o, NdArr) and o.tag == "allrows" and isinstance(e.slice, ast.Slice) and e.slice.step is None:
                 lo = self.ev(e.slice.lower, env, pc)
                 hi = self.ev(e.slice.upper, env, pc)
